@@ -1,11 +1,16 @@
 (* C06 - Alignments survive a write/read round trip in every format.
-   Statements only; proofs in FormatsProofs.v.
+   Statements only; proofs in FormatsProofs.v and FormatsProofs2.v.
    Proved: the shared reader core for all three formats (any cutting of a row into lines rebuilds
-   the row), line splitting, and the complete FASTA round trip at file level.  The Clustal and MSF
-   file-level round trips are stated as Definitions below and are NOT yet theorems; they are decided
-   on every run by the byte-exact correspondence of writers and readers plus round-trip runs over
-   all nine ordered format pairs (DESIGN C06). *)
-From KV Require Import Base Params Sort Detect Weave WeaveProofs Cmp Formats FormatsProofs.
+   the row), line splitting, and the complete round trip at file level for FASTA, Clustal and MSF:
+   kalign_read_input (incl. line reading and format sniffing) applied to the bytes the writer
+   produced returns records whose names and gapped rows are the written ones - any number of rows,
+   any width (multiples of 60 included), names of 1..200 bytes.  That the writer and reader models
+   are msa_io.c is the byte-exact correspondence checked on every run, together with round-trip
+   runs over all nine ordered format pairs (DESIGN C06). *)
+From KV Require Import Base Params Sort Detect Weave WeaveProofs Cmp Formats FormatsProofs FormatsProofs2.
+From Coq Require Import String.
+Import Coq.Init.Datatypes.
+Local Open Scope list_scope.
 Local Open Scope Z_scope.
 
 (* the reader core shared by read_fasta, read_clu and read_msf: however a gapped row is cut into
@@ -13,8 +18,8 @@ Local Open Scope Z_scope.
    gaps in the same places) and the residues are exactly the letters *)
 Theorem C06_reader_core : forall chunks r, rec_wf r ->
   let r' := fold_left feed_line chunks r in
-  rec_wf r' /\ row_of r' = row_of r ++ norm (concat chunks) /\ rr_name r' = rr_name r /\
-  rr_res r' = rr_res r ++ filter isalpha (concat chunks).
+  rec_wf r' /\ row_of r' = row_of r ++ norm (List.concat chunks) /\ rr_name r' = rr_name r /\
+  rr_res r' = rr_res r ++ filter isalpha (List.concat chunks).
 Proof. exact feed_chunks_row. Qed.
 Print Assumptions C06_reader_core.
 
@@ -41,16 +46,35 @@ Proof.
 Qed.
 Print Assumptions C06_fasta_roundtrip.
 
-Definition C06_clustal_roundtrip_full_statement : Prop := forall version rows alnlen,
-  rows <> [] -> Forall (fun nr => name_ok (fst nr) /\ good_row (snd nr) /\ length (snd nr) = alnlen /\ (length (fst nr) <= 200)%nat) rows ->
+(* Clustal, complete.  [version] is the compile-time version string (no control byte). *)
+Theorem C06_clustal_roundtrip : forall version rows alnlen,
+  clean_line version -> rows <> [] ->
+  Forall (fun nr => name_ok (fst nr) /\ good_row (snd nr) /\ length (snd nr) = alnlen /\ (length (fst nr) <= 200)%nat) rows ->
   (1 <= alnlen)%nat ->
   exists m, read_one (write_clu version alnlen rows) = Some (Some m) /\ rows_of (m_recs m) = rows.
-Definition C06_msf_roundtrip_full_statement : Prop := forall base date protein rows alnlen,
-  rows <> [] -> Forall (fun nr => name_ok (fst nr) /\ good_row (snd nr) /\ length (snd nr) = alnlen /\ (length (fst nr) <= 200)%nat) rows ->
+Proof. exact read_one_written_clu. Qed.
+Print Assumptions C06_clustal_roundtrip.
+
+(* MSF, complete.  Names must not contain '/' (a "//" would end the header).  The title line carries two free
+   texts - the output file's base name and a date: the statement needs that line to contain no control byte, no
+   "//", no "Name:" and no Clustal marker ([title_inert], [hint_clu]); all four are decidable on the written line,
+   and hold for kalign's date format and any base name without those substrings (Example below). *)
+Theorem C06_msf_roundtrip : forall base date protein rows alnlen,
+  title_inert (msf_title base date protein alnlen rows) -> hint_clu (msf_title base date protein alnlen rows) = false ->
+  Forall (fun nr => name_ok (fst nr) /\ good_row (snd nr) /\ length (snd nr) = alnlen /\ (length (fst nr) <= 200)%nat /\ ~ In 47 (fst nr)) rows ->
   (1 <= alnlen)%nat ->
   exists m, read_one (write_msf base date protein alnlen rows) = Some (Some m) /\ rows_of (m_recs m) = rows.
+Proof. exact msf_roundtrip. Qed.
+Print Assumptions C06_msf_roundtrip.
 
-(* Non-vacuity and instances of the two open statements (tests by evaluation) *)
+(* the title-line premises hold for a realistic title: base name "out.msf", date "September 29, 2026 10:15" *)
+Example C06_msf_title_premises :
+  let rows := [([115;49], [65;67;45;71;84]); ([115;50;124;95], [97;45;45;71;116])] in
+  let t := msf_title (bytes_of_string "out.msf"%string) (bytes_of_string "September 29, 2026 10:15"%string) true 5 rows in
+  forallb (fun c => negb (iscntrl c)) t = true /\ has t "//"%string = false /\ after (bytes_of_string "Name:"%string) t = None /\ hint_clu t = false.
+Proof. vm_compute. repeat split; reflexivity. Qed.
+
+(* Non-vacuity: instances by evaluation *)
 Example C06_nonvacuous :
   let rows := [([115;49], [65;67;45;71;84]); ([115;50;124;95], [97;45;45;71;116])] in
   forallb (fun nr => forallb (fun c => isalpha c || (c =? dash)) (snd nr)) rows = true /\
